@@ -61,10 +61,11 @@ def _clauses(n, explicit):
     return ens
 
 
-for _n in (1, 2, 3):
+for _n in (1, 2, 3, 4):
     for _e in (False, True):
         CONTRACTS["programs:Covout.update_outcomes#n%d%s" % (_n, "_explicit" if _e else "")] = dict(
-            schema=schema, make_env=_make_env(_n, _e), ensures=_clauses(_n, _e), defined_props=["C12"], n=_n, explicit=_e)
+            schema=schema, make_env=_make_env(_n, _e), ensures=_clauses(_n, _e), defined_props=["C12"], n=_n, explicit=_e,
+            tiers=(["quick", "thorough"] if _n <= 3 else ["thorough"]))
 
 
 def _replay(model, contract):
